@@ -26,7 +26,7 @@ WARM_GROUPED = True
 def warm_grouped(case):
     return case.get("op") != "modify"
 
-OPS = ["rbind", "cbind", "update", "modify", "select", "unselect", "rename"]
+OPS = ["rbind", "cbind", "update", "modify", "select", "unselect", "rename", "colnames", "modify"]
 
 
 def gen_frame(rng, names, nrow=None):
@@ -74,10 +74,19 @@ def gen_case(rng, tier):
             else:
                 to = rng.sample(["p", "q", "r"], len(frm))
             case["to_from"] = [[t, f_] for t, f_ in zip(to, frm)]
+        elif op == "colnames":
+            # a positional renaming in which some names stay as they are (`[x.lower() for x in data.colnames]`)
+            fresh = iter(["p", "q", "r", "s"])
+            case["names"] = [nm if rng.random() < 0.5 else next(fresh) for nm in names]
         elif op == "modify":
             kvs = []
             for key in rng.sample(names + ["p", "q"], rng.randint(1, 2)):
                 kvs.append([key, rng.choice(["scalar", "vector", "callable", "scalar", "vector", "callable", "longvector", "longcallable"])])
+            if rng.random() < 0.35 and any(c["kind"] in ("int", "float") for c in f["cols"]) and f["n"] >= 1:
+                # a callable that READS a column of the receiver, listed after a value that replaces that very column: every
+                # callable is handed the frame modify was called on
+                src = rng.choice([c["name"] for c in f["cols"] if c["kind"] in ("int", "float")])
+                kvs = [[src, rng.choice(["scalar", "vector"])], [rng.choice(["p", "q"]), "reads:" + src]]
             case["kvs"] = kvs
     return case
 
@@ -102,6 +111,9 @@ def gen_cases(ctx):
 
 
 def modify_value(kind, key, n):
+    if kind.startswith("reads:"):
+        col = kind.split(":", 1)[1]
+        return (lambda x: x[col].is_na()), None          # (the expected values come from the receiver's own column)
     if kind == "scalar":
         return 42, [42]
     if kind in ("longvector", "longcallable"):
@@ -138,6 +150,9 @@ def impl(case):
             out = self.unselect(*case["cols"])
         elif op == "rename":
             out = self.rename(**{t: f for t, f in case["to_from"]})
+        elif op == "colnames":
+            out = self.deepcopy()          # colnames assignment is the documented in-place operation: done on a private copy
+            out.colnames = list(case["names"])
         res["colnames"] = out.colnames
         res["nrow"] = out.nrow
         res["cols"] = {k: vecgen.canon_array(v) for k, v in out.items()}
@@ -156,6 +171,8 @@ def impl(case):
 
 
 def model_requests(case, obs):
+    if case["op"] == "colnames" or any(str(k[1]).startswith("reads:") for k in case.get("kvs", [])):
+        return []            # judged by the reference layout alone (colnames assignment is modelled in C01's FrameState)
     op = case["op"]
     frames = [{"nrow": f["n"], "names": [c["name"] for c in f["cols"]]} for f in case["frames"]]
     a = {"kind": op, "frames": frames}
@@ -207,6 +224,11 @@ def source_value(case, src):
         f = case["frames"][src[1]]
         c = framegen.col(f, src[2])
         return (c["kind"], vecgen.canon_vals(c["kind"], c["vals"])[src[3]])
+    if src[0] == "r":
+        f = case["frames"][0]
+        c = framegen.col(f, src[1])
+        v = vecgen.canon_vals(c["kind"], c["vals"])[src[2]]
+        return ("bool", bool(vecgen.canon_is_na(c["kind"], v)))
     if src[0] == "v":
         kind = dict(map(tuple, case["kvs"]))[src[1]]
         vec = modify_value(kind, src[1], case["frames"][0]["n"])[1]
@@ -260,7 +282,9 @@ def expected_layout(case):
         out = [[nm, fit(0, nm, n0)] for nm in names(F[0])]
         for key, kind in case["kvs"]:
             ln = 1 if kind == "scalar" else n0 + 2 if kind.startswith("long") else n0
-            if ln == n0:
+            if kind.startswith("reads:"):
+                cells = [["r", kind.split(":", 1)[1], r] for r in range(n0)]
+            elif ln == n0:
                 cells = [["v", key, r] for r in range(ln)]
             elif ln == 1 and n0 >= 1:
                 cells = [["v", key, 0]] * n0
@@ -272,6 +296,9 @@ def expected_layout(case):
             else:
                 out.append([key, cells])
         return out
+    if op == "colnames":
+        # positional: column i keeps its values and gets names[i]
+        return [[new, fit(0, old, n0)] for old, new in zip(names(F[0]), case["names"])]
     if op == "select":
         out = []
         for nm in case["cols"]:
@@ -336,7 +363,7 @@ def judge(ctx, case, obs, mouts):
             ctx.violation("oracle", f"{op}:raises", problem, case, obs)
         else:
             ctx.violation("oracle", f"{op}:wrong", problem, case, obs, exp)
-    if mouts is not None:
+    if mouts:
         m = mouts[0]
         if isinstance(m, dict) and "err" in m:
             ctx.violation("correspondence", f"{op}:model-error", f"model rejected the request: {m['err']}", case, obs, m)
